@@ -326,13 +326,16 @@ BATTERIES = {
  'C04': [dict(sign=[1, 1, 1, 1, 1, 1], dof=6, search='true')],
  'C05': [dict(sign=[1, 1, 1, 1, 1, 1], search='true'), dict(sign=[1, 1, 1, 1, -1, 1], off=[0.0, 0.0, 0.0, 0.0, 0.4, 0.0], search='true'), dict(sign=[1, 1, 1, -1, 1, 1], search='true'), dict(sign=[-1, 1, 1, -1, 1, -1], search='true')],
  'C06': [dict(sign=[1, 1, 1, 1, 1, 1], dof=5, search='true'), dict(sign=[1, 1, 1, 1, 1, 1], dof=6, search='true')],
- 'C07': [dict(**{'from': [3.0, -1.0, 0.0, 9.42477796076938, -0.5, 2.0], 'to': [1.0, 1.0, 0.0, -1.5707963267948966, 0.5, 8.5], 'x': [3.5, 0.5, 7.0, 3.9, 12.0, -4.0]}, ctor='new')],
+ 'C07': [dict(**{'from': [3.0, -1.0, 0.0, 9.42477796076938, -0.5, 2.0], 'to': [1.0, 1.0, 0.0, -1.5707963267948966, 0.5, 8.5], 'x': [3.5, 0.5, 7.0, 3.9, 12.0, -4.0]}, ctor='new'),
+         dict(**{'from': [-0.17453292519943295, 0.0, -12.653637076958888, 6.1086523819801535, 0.0, 0.0], 'to': [6.457718232379019, 6.981317007977318, 0.08726646259971647, 6.457718232379019, 1.0, 1.0], 'x': [3.0, 5.0, 1.0, 6.2, 0.5, 0.5]}, ctor='degrees')],
  'C08': [dict(sign=[1, 1, 1, 1, 1, 1], dof=6, search='true'), dict(sign=[1, 1, 1, 1, 1, 1], dof=5, search='true')],
- 'C09': [dict(wrapper=w, method=m, euler=[0.3, -0.5, 0.7], shift=[0.1, -0.2, 0.3]) for w in ('tool', 'base', 'frame') for m in ('forward', 'forward_with_joint_poses', 'inverse', 'inverse_continuing', 'inverse_continuing_5dof')],
- 'C10': [dict(clause='tasks', tool=1, base=1, nenv=2), dict(clause='tasks', tool=0, base=1, nenv=1), dict(clause='entry')],
+ 'C09': [dict(wrapper=w, method=m, euler=[0.3, -0.5, 0.7], shift=[0.1, -0.2, 0.3]) for w in ('tool', 'base', 'frame') for m in ('forward', 'forward_with_joint_poses', 'inverse', 'inverse_continuing', 'inverse_continuing_5dof')]
+        + [dict(wrapper='frame_over_tool', method=m, euler=[0.3, -0.5, 0.7], shift=[0.1, -0.2, 0.3]) for m in ('forward', 'inverse', 'inverse_continuing')],
+ 'C10': [dict(clause='tasks', tool=1, base=1, nenv=2), dict(clause='tasks', tool=0, base=1, nenv=1), dict(clause='entry'), dict(clause='verdict')],
  'C12': [dict(seed=0, n=60)],
  'C11': [dict(clause='entry')], 'C13': [dict(clause='extend')], 'C14': [dict(clause='offsets')], 'C15': [dict(clause='finite_difference')],
- 'C16': [dict(driven=d, coupled=c, scaling=sc, method=m) for (d, c, sc) in ((1, 2, 0.7), (2, 1, -0.5), (0, 5, 1.5)) for m in ('forward', 'inverse', 'inverse_continuing_5dof')],
+ 'C16': [dict(driven=d, coupled=c, scaling=sc, method=m) for (d, c, sc) in ((1, 2, 0.7), (2, 1, -0.5), (0, 5, 1.5)) for m in ('forward', 'inverse', 'inverse_continuing_5dof')]
+        + [dict(driven=5, coupled=2, scaling=0.5, method=m) for m in ('inverse_5dof', 'inverse_continuing_5dof')] + [dict(driven=5, coupled=1, scaling=-0.25, method='inverse_5dof')],
  'C17': [dict(clause='main', eulerB=[0.3, -0.5, 0.7], eulerM=[-1.1, 0.4, 2.0], shift=[0.5, -0.25, 3.0], p1=[10.0, -4.0, 2.0], l=0.8, u=0.3, w=0.6), dict(clause='mismatch_search'), dict(clause='forward_transformed')],
  'C18': [dict(**{'from': [3.0, 5.0, -1.0, -2.0, 6.0, 0.5], 'to': [1.0, -5.0, -2.0, 2.0, 0.2, 0.5]})],
  'C19': [dict()], 'C20': [dict(seed=0, n=150)],
@@ -360,9 +363,12 @@ def main(run_fn, pid):
     ck = Check(pid, a.tier if a.tier in ('quick', 'thorough') else 'quick', a.seed)
     try:
         run_fn(ck)
-        run_battery(ck)
     except Inconclusive as e:
         ck.inconclusive.append(f'{type(e).__name__}: {e}')
     except Exception as e:
         traceback.print_exc(); ck.inconclusive.append(f'internal error {type(e).__name__}: {e}')
+    # the native cross-check does not depend on the symbolic part: it runs even when that part could not be completed (changed code the engine cannot execute)
+    try: run_battery(ck)
+    except Exception as e:
+        traceback.print_exc(); ck.inconclusive.append(f'native cross-check: internal error {type(e).__name__}: {e}')
     sys.exit(ck.finish())
